@@ -15,6 +15,7 @@ EXPLANATION = (
     "exactly the member names the parser accepts and escapes tag names and values. Accessor values versus an "
     "independent parser and byte-identical round trip are not decided.")
 EXPLANATION += " Also decided: no branch of the parser depends on the contents an earlier member wrote into the output buffer (the seen-flags are the only state carried between members); json_unescape writes only table constants, verbatim input bytes or encode_utf8 output."
+EXPLANATION += " Also decided: the writer's separator flag is cleared after every member before it is tested again (no two members without a comma); the tag-letter bitmap is found by its use and must not share a variable with the member flags."
 ASSUMPTIONS = []
 
 WRITER_NAMES = {b'"ids":[', b'"authors":[', b'"kinds":[', b'"limit":', b'"since":', b'"until":', b'"#'}
